@@ -213,6 +213,11 @@ pub struct RtScn {
     /// the reader starts this many virtual ms late (a backlog builds up, the writer may be gone)
     #[serde(default)]
     pub reader_delay_ms: u64,
+    /// After the reading end has seen end-of-stream it writes the first `back_msgs` messages back
+    /// (fed, not flushed) and closes; the writing end, which closed (not dropped) its own write
+    /// side, must read them all and then end-of-stream. 0: one direction only.
+    #[serde(default)]
+    pub back_msgs: u8,
 }
 
 #[derive(Clone, Debug, Serialize, Deserialize, PartialEq)]
@@ -370,6 +375,7 @@ pub fn gen_roundtrip(rng: &mut Rng) -> BytesScn {
         batch: rng.chance(400) || long_backlog,
         gap_ms: if long_backlog { 0 } else { *rng.pick(&[0u64, 0, 1, 7]) },
         reader_delay_ms,
+        back_msgs: if !long_backlog && rng.chance(300) { rng.range(1, 3) as u8 } else { 0 },
     })
 }
 
@@ -436,14 +442,20 @@ fn viol(prop: &'static str, rule: &str, tags: &[&str], detail: String) -> Violat
 
 struct RtShared {
     received: Vec<(Norm, i64)>,
+    /// what the writing end read back after closing its write side, and how that ended
+    received_back: Vec<Norm>,
+    back_written: Vec<Norm>,
+    back_done: Option<Result<(), String>>,
+    back_write_err: Option<String>,
     reader_done: Option<Result<(), String>>,
     enc_times: Vec<(i128, i128)>, // (deadline_us at build, encode time us)
 }
 
-async fn write_all<M: Wire, S>(sim: Rc<Sim>, mut sink: S, scn: RtScn, sh: Rc<RefCell<RtShared>>, raw: Option<pipe::DirRef>)
+async fn write_all<M: Wire, S, E>(sim: Rc<Sim>, mut sink: S, scn: RtScn, sh: Rc<RefCell<RtShared>>, raw: Option<pipe::DirRef>)
 where
-    S: Sink<M> + Unpin,
-    S::Error: std::fmt::Debug,
+    S: Sink<M> + Stream<Item = Result<M, E>> + Unpin,
+    <S as Sink<M>>::Error: std::fmt::Debug,
+    E: std::fmt::Debug,
 {
     for (i, m) in scn.msgs.iter().enumerate() {
         if scn.gap_ms > 0 && i > 0 {
@@ -476,6 +488,27 @@ where
         EndKind::Close => {
             let _ = sink.close().await;
             sim.log(EvKind::Note { what: "writer_closed", a: 0, b: 0 });
+            if scn.back_msgs > 0 {
+                // half-closed: this end keeps reading what the other end writes back
+                loop {
+                    match sink.next().await {
+                        None => {
+                            sh.borrow_mut().back_done = Some(Ok(()));
+                            break;
+                        }
+                        Some(Err(e)) => {
+                            sh.borrow_mut().back_done = Some(Err(format!("{e:?}")));
+                            break;
+                        }
+                        Some(Ok(m)) => {
+                            let mut n = m.norm(&sim);
+                            n.deadline_us = 0;
+                            sh.borrow_mut().received_back.push(n);
+                        }
+                    }
+                }
+                sim.log(EvKind::Note { what: "back_done", a: sh.borrow().received_back.len() as i64, b: 0 });
+            }
             // keep the closed writer alive: end-of-stream must come from the close itself
             futures::future::pending::<()>().await;
         }
@@ -496,9 +529,10 @@ fn optional_field_frames() -> Vec<Vec<u8>> {
     vec![frame(&serde_json::to_vec(&cancel).unwrap()), frame(&serde_json::to_vec(&req).unwrap())]
 }
 
-async fn read_all<M: Wire, S, E>(sim: Rc<Sim>, mut stream: S, sh: Rc<RefCell<RtShared>>, delay_ms: u64)
+async fn read_all<M: Wire, S, E>(sim: Rc<Sim>, mut stream: S, sh: Rc<RefCell<RtShared>>, delay_ms: u64, scn: RtScn)
 where
-    S: Stream<Item = Result<M, E>> + Unpin,
+    S: Stream<Item = Result<M, E>> + Sink<M> + Unpin,
+    <S as Sink<M>>::Error: std::fmt::Debug,
     E: std::fmt::Debug,
 {
     if delay_ms > 0 {
@@ -510,6 +544,26 @@ where
             None => {
                 sh.borrow_mut().reader_done.get_or_insert(Ok(()));
                 sim.log(EvKind::Note { what: "reader_eof", a: 0, b: 0 });
+                if scn.back_msgs > 0 && scn.end == EndKind::Close {
+                    sim.count("probe.wrote_back_after_eof");
+                    for m in scn.msgs.iter().take(scn.back_msgs as usize) {
+                        let Some(msg) = M::build(&sim, m) else { continue };
+                        let mut n = msg.norm(&sim);
+                        n.deadline_us = 0;
+                        // fed, not flushed: closing is what has to push it out
+                        if let Err(e) = stream.feed(msg).await {
+                            sh.borrow_mut().back_write_err = Some(format!("feed: {e:?}"));
+                            return;
+                        }
+                        sh.borrow_mut().back_written.push(n);
+                    }
+                    if let Err(e) = stream.close().await {
+                        sh.borrow_mut().back_write_err = Some(format!("close: {e:?}"));
+                    }
+                    sim.log(EvKind::Note { what: "back_closed", a: 0, b: 0 });
+                    // keep the closed end alive: end-of-stream must come from the close itself
+                    futures::future::pending::<()>().await;
+                }
                 return;
             }
             Some(Err(e)) => {
@@ -534,28 +588,28 @@ fn spawn_rt<M: Wire>(sim: &Rc<Sim>, scn: &RtScn, sh: &Rc<RefCell<RtShared>>) -> 
             let raw = a.wr.clone();
             let w = tarpc::serde_transport::new::<End, M, M, Json<M, M>>(Framed::new(a, LengthDelimitedCodec::new()), Json::default());
             let r = tarpc::serde_transport::new::<End, M, M, Json<M, M>>(Framed::new(b, LengthDelimitedCodec::new()), Json::default());
-            let wt = sim.spawn("writer", write_all::<M, _>(sim.clone(), w, scn.clone(), sh.clone(), Some(raw)));
-            let rt = sim.spawn("reader", read_all::<M, _, _>(sim.clone(), r, sh.clone(), scn.reader_delay_ms));
+            let wt = sim.spawn("writer", write_all::<M, _, _>(sim.clone(), w, scn.clone(), sh.clone(), Some(raw)));
+            let rt = sim.spawn("reader", read_all::<M, _, _>(sim.clone(), r, sh.clone(), scn.reader_delay_ms, scn.clone()));
             (wt, rt)
         }
         Medium::SerdeBincode => {
             let (a, b) = pipe(scn.pipe.clone());
             let w = tarpc::serde_transport::new::<End, M, M, Bincode<M, M>>(Framed::new(a, LengthDelimitedCodec::new()), Bincode::default());
             let r = tarpc::serde_transport::new::<End, M, M, Bincode<M, M>>(Framed::new(b, LengthDelimitedCodec::new()), Bincode::default());
-            let wt = sim.spawn("writer", write_all::<M, _>(sim.clone(), w, scn.clone(), sh.clone(), None));
-            let rt = sim.spawn("reader", read_all::<M, _, _>(sim.clone(), r, sh.clone(), scn.reader_delay_ms));
+            let wt = sim.spawn("writer", write_all::<M, _, _>(sim.clone(), w, scn.clone(), sh.clone(), None));
+            let rt = sim.spawn("reader", read_all::<M, _, _>(sim.clone(), r, sh.clone(), scn.reader_delay_ms, scn.clone()));
             (wt, rt)
         }
         Medium::MemUnbounded => {
             let (w, r) = tarpc::transport::channel::unbounded::<M, M>();
-            let wt = sim.spawn("writer", write_all::<M, _>(sim.clone(), w, scn.clone(), sh.clone(), None));
-            let rt = sim.spawn("reader", read_all::<M, _, _>(sim.clone(), r, sh.clone(), scn.reader_delay_ms));
+            let wt = sim.spawn("writer", write_all::<M, _, _>(sim.clone(), w, scn.clone(), sh.clone(), None));
+            let rt = sim.spawn("reader", read_all::<M, _, _>(sim.clone(), r, sh.clone(), scn.reader_delay_ms, scn.clone()));
             (wt, rt)
         }
         Medium::MemBounded(c) => {
             let (w, r) = tarpc::transport::channel::bounded::<M, M>(*c);
-            let wt = sim.spawn("writer", write_all::<M, _>(sim.clone(), w, scn.clone(), sh.clone(), None));
-            let rt = sim.spawn("reader", read_all::<M, _, _>(sim.clone(), r, sh.clone(), scn.reader_delay_ms));
+            let wt = sim.spawn("writer", write_all::<M, _, _>(sim.clone(), w, scn.clone(), sh.clone(), None));
+            let rt = sim.spawn("reader", read_all::<M, _, _>(sim.clone(), r, sh.clone(), scn.reader_delay_ms, scn.clone()));
             (wt, rt)
         }
     }
@@ -563,6 +617,7 @@ fn spawn_rt<M: Wire>(sim: &Rc<Sim>, scn: &RtScn, sh: &Rc<RefCell<RtShared>>) -> 
 
 fn run_roundtrip(scn: &RtScn, tape: Tape) -> RunOutput {
     let scn2 = scn.clone();
+    let scn2b = scn.clone();
     let horizon = 60_000 + scn.msgs.len() as u64 * (scn.gap_ms + scn.pipe.latency_ms + 1) * 4;
     run_sim(
         tape,
@@ -570,7 +625,7 @@ fn run_roundtrip(scn: &RtScn, tape: Tape) -> RunOutput {
         horizon,
         true,
         |sim| {
-            let sh = Rc::new(RefCell::new(RtShared { received: vec![], reader_done: None, enc_times: vec![] }));
+            let sh = Rc::new(RefCell::new(RtShared { received: vec![], received_back: vec![], back_written: vec![], back_done: None, back_write_err: None, reader_done: None, enc_times: vec![] }));
             let (wt, rt) = if scn2.responses {
                 spawn_rt::<Response<String>>(sim, &scn2, &sh)
             } else {
@@ -579,7 +634,10 @@ fn run_roundtrip(scn: &RtScn, tape: Tape) -> RunOutput {
             (sh, wt, rt)
         },
         |sim, st| {
-            if sim.is_done(st.2) {
+            let back = scn2b.back_msgs > 0 && scn2b.end == EndKind::Close;
+            let sh = st.0.borrow();
+            let reader_over = sim.is_done(st.2) || (back && sh.reader_done.is_some());
+            if reader_over && (!back || sh.back_done.is_some() || sh.back_write_err.is_some() || !matches!(sh.reader_done, Some(Ok(())))) {
                 IdleAct::Stop
             } else {
                 IdleAct::Wait
@@ -686,6 +744,35 @@ fn run_roundtrip(scn: &RtScn, tape: Tape) -> RunOutput {
                                 v.push(viol("C15", "no-eof", &[medium_tag], format!("reader still waiting after {} of {} items at the end of the run (writer ended by {:?})", got.len(), expected.len(), scn.end)));
                             }
                         }
+                    }
+                }
+            }
+            // the way back, after this end's own write side was closed and the other end saw it
+            if v.is_empty() && scn.back_msgs > 0 && scn.end == EndKind::Close && matches!(sh.reader_done, Some(Ok(()))) && !sim.overrun.get() && sim.panics.borrow().is_empty() {
+                if let Some(e) = &sh.back_write_err {
+                    v.push(viol("C15", "spurious-error", &[medium_tag, "after-eof"], format!("writing back after end-of-stream failed: {e}")));
+                } else {
+                    match &sh.back_done {
+                        Some(Ok(())) => {
+                            // over a serde medium only the portable error kinds survive
+                            let want: Vec<Norm> = sh
+                                .back_written
+                                .iter()
+                                .cloned()
+                                .map(|mut n| {
+                                    if !in_memory && n.kind == "err" && !KINDS[..PORTABLE].iter().any(|k| format!("{k:?}") == n.errkind) {
+                                        n.errkind = format!("{:?}", io::ErrorKind::Other);
+                                    }
+                                    n
+                                })
+                                .collect();
+                            if sh.received_back != want {
+                                let what = if sh.received_back.len() < sh.back_written.len() { "loss" } else { "mismatch" };
+                                v.push(viol("C15", what, &[medium_tag, "after-eof"], format!("{} items were fed and the end closed after it had read end-of-stream; the half-closed peer read {} of them before end-of-stream", sh.back_written.len(), sh.received_back.len())));
+                            }
+                        }
+                        Some(Err(e)) => v.push(viol("C15", "spurious-error", &[medium_tag, "after-eof"], format!("half-closed end failed reading back after {} of {} items: {e}", sh.received_back.len(), sh.back_written.len()))),
+                        None => v.push(viol("C15", "no-eof", &[medium_tag, "after-eof"], format!("half-closed end still waiting after {} of {} items written back and closed", sh.received_back.len(), sh.back_written.len()))),
                     }
                 }
             }
